@@ -142,6 +142,12 @@ EquivIsTheTakenState == IsEquiv =>
    /\ \A i \in DOMAIN J.ssegs : J.ssegs[i][4] = 1 => \E j \in DOMAIN J.esegs : J.esegs[j] = J.ssegs[i]
    /\ \A j \in DOMAIN J.esegs : (\A i \in DOMAIN J.ssegs : J.ssegs[i][1] # J.esegs[j][1]) => J.esegs[j][3] = 0
 
+\* ScorchDisk!PCommit / PMMCommit at the step: the snapshot recorded in the metadata
+\* store under an epoch names exactly one file per segment of the snapshot the
+\* persister took for that epoch (read back right after the bolt commit)
+IsCommit == l > 1 /\ J.ev = "PersistCommitted" /\ J.checked
+CommitNamesTheTakenSnapshot == IsCommit => SetOf(J.boltids) = SetOf(J.segids)
+
 \* the observation is self-consistent (C01 on the reopened index)
 RecoveredConsistent == (IsRec /\ J.opened) =>
    /\ J.count = Cardinality(DocsOf(J.docs))
